@@ -3,6 +3,7 @@ import FatVerif.Proofs.FileSimSeek
 import FatVerif.Proofs.FileSimWrite
 import FatVerif.Proofs.FileSimWriteAlloc
 import FatVerif.Proofs.FileSimTruncate
+import FatVerif.Proofs.FileSimLoop
 /-!
 # C02, simulation: the byte-level `File` of Model/File.lean refines the byte array with a cursor
 
@@ -27,6 +28,10 @@ inductive HOp where
   | seek (p : FatVerif.SeekFrom)
   | write (bs : List Nat)
   | truncate
+  /-- `Read::read_exact` on the handle: the loop of io.rs over single `read` calls -/
+  | readExact (n : Nat)
+  /-- `Write::write_all` on the handle: the loop of io.rs over single `write` calls -/
+  | writeAll (bs : List Nat)
   deriving Repr
 
 /-- the corresponding operation of the cursor machine / the specification -/
@@ -35,6 +40,40 @@ def HOp.toOp : HOp → Cursor.FileOp
   | .seek p => .seek (convSeek p)
   | .write bs => .write bs
   | .truncate => .truncate
+  | .readExact n => .readExact n
+  | .writeAll bs => .writeAll bs
+
+/-- the operations that are one call of `File` (the other two are loops over such calls) -/
+def HOp.isPrim : HOp → Prop
+  | .readExact _ => False
+  | .writeAll _ => False
+  | _ => True
+
+/-- `read_exact` as the history driver runs it (`Session.readxLoop` of Model/Api.lean, on the device alone): single `read`
+    calls until the buffer is full; a call returning nothing is `UnexpectedEof` (reported with the cursor, as the probe
+    does); mutations of completed calls persist -/
+def readxH : Nat → FileH → Dev → Nat → List Nat → Cursor.FileRes × FileH × Dev
+  | 0, h, d, _, _ => (.err .hang, h, d)
+  | fuel + 1, h, d, n, acc =>
+    if n = 0 then (.bytes acc, h, d)
+    else match run (h.read n) d with
+      | (.ok (bs, h'), d') =>
+        if bs.length = 0 then (.errAt .eof h'.offset, h', d')
+        else readxH fuel h' d' (n - bs.length) (acc ++ bs)
+      | (.error e, d') => (.err e, h, d')
+
+/-- `write_all` as the history driver runs it (`Session.writeAllLoopS`): single `write` calls until the buffer is
+    consumed; a call returning 0 is `WriteZero`; an error ends the loop with the handle as the last completed call
+    left it -/
+def writeallH : Nat → FileH → Dev → List Nat → Cursor.FileRes × FileH × Dev
+  | 0, h, d, _ => (.err .hang, h, d)
+  | fuel + 1, h, d, bs =>
+    if bs.length = 0 then (.unit, h, d)
+    else match run (h.write bs) d with
+      | (.ok (n, h'), d') =>
+        if n = 0 then (.errAt .writeZero h'.offset, h', d')
+        else writeallH fuel h' d' (bs.drop n)
+      | (.error e, d') => (.errAt e h.offset, h, d')
 
 /-- run ONE operation of the byte-level model: observable result, new handle (the old one after an error), device -/
 def execH (op : HOp) (f : FileH) (d : Dev) : Cursor.FileRes × FileH × Dev :=
@@ -55,6 +94,8 @@ def execH (op : HOp) (f : FileH) (d : Dev) : Cursor.FileRes × FileH × Dev :=
     match run f.truncate d with
     | (.ok f', d') => (.unit, f', d')
     | (.error e, d') => (.err e, f, d')
+  | .readExact n => readxH (n + 1) f d n []
+  | .writeAll bs => writeallH (bs.length + 1) f d bs
 
 /-- a history -/
 def runH : List HOp → FileH → Dev → List Cursor.FileRes × FileH × Dev
@@ -77,12 +118,25 @@ structure SimInv (f : FileH) (d : Dev) : Prop where
 def BytesOk : List HOp → Prop
   | [] => True
   | .write bs :: ops => (∀ b ∈ bs, b < 256) ∧ BytesOk ops
+  | .writeAll bs :: ops => (∀ b ∈ bs, b < 256) ∧ BytesOk ops
   | _ :: ops => BytesOk ops
 
-/-- one step: the invariants are kept, the cluster size stays, and the observable result is accepted by the
+/-- the buffer of one operation carries bytes -/
+def HOp.BytesOk (op : HOp) : Prop := ∀ bs, op = .write bs ∨ op = .writeAll bs → ∀ b ∈ bs, b < 256
+
+theorem BytesOk.cons {op : HOp} {ops : List HOp} (h : BytesOk (op :: ops)) : op.BytesOk ∧ BytesOk ops := by
+  cases op with
+  | write bs => exact ⟨fun bs' e => (by rcases e with e | e <;> cases e; exact h.1), h.2⟩
+  | writeAll bs => exact ⟨fun bs' e => (by rcases e with e | e <;> cases e; exact h.1), h.2⟩
+  | read n => exact ⟨fun bs' e => (by rcases e with e | e <;> cases e), h⟩
+  | seek p => exact ⟨fun bs' e => (by rcases e with e | e <;> cases e), h⟩
+  | truncate => exact ⟨fun bs' e => (by rcases e with e | e <;> cases e), h⟩
+  | readExact n => exact ⟨fun bs' e => (by rcases e with e | e <;> cases e), h⟩
+
+/-- one single call: the invariants are kept, the cluster size stays, and the observable result is accepted by the
     `ByteFile` oracle, which moves from the abstraction of the old state to that of the new one -/
-theorem execH_refines (op : HOp) (f : FileH) (d : Dev) (h : SimInv f d)
-    (hok : ∀ bs, op = .write bs → ∀ b ∈ bs, b < 256) :
+theorem execH_refines_prim (op : HOp) (hp : op.isPrim) (f : FileH) (d : Dev) (h : SimInv f d)
+    (hok : op.BytesOk) :
     SimInv (execH op f d).2.1 (execH op f d).2.2 ∧
     (execH op f d).2.2.fs.clusterSize = d.fs.clusterSize ∧
     Cursor.ByteFile.check d.fs.clusterSize op.toOp (execH op f d).1 (absFile d.fs d.img f).abs =
@@ -110,8 +164,10 @@ theorem execH_refines (op : HOp) (f : FileH) (d : Dev) (h : SimInv f d)
       · rw [hm] at hq; cases hq
       · simp only [execH, hr, HOp.toOp]
         exact ⟨⟨hfa, hwf, hg, hrep, hinfo⟩, trivial, hchk⟩
+  | readExact n => exact hp.elim
+  | writeAll bs => exact hp.elim
   | write bs =>
-    have hbytes := hok bs rfl
+    have hbytes := hok bs (Or.inl rfl)
     have hspec := hrep.inv.write_refines (fatAllocator_laws d.fs.totalClusters d.fs.fsInfo.next) bs
     by_cases hno : (absFile d.fs d.img f).writeLen bs.length = 0 ∨ (absFile d.fs d.img f).readCluster ≠ none
     · -- no allocation
@@ -134,7 +190,7 @@ theorem execH_refines (op : HOp) (f : FileH) (d : Dev) (h : SimInv f d)
         | some c => exact absurd (Or.inr (by rw [h]; intro e; cases e)) hno
       have hw0 : (absFile d.fs d.img f).writeLen bs.length ≠ 0 := fun h0 => hno (Or.inl h0)
       rcases write_sim_alloc f bs d hfa hg hrep hwf hinfo hbytes hrcn hw0 with
-        ⟨d', hr, hma, hs, hab, hrep', hinfo'⟩ | ⟨k, f', d', hr, hres, hs, hcore, hrep', hinfo'⟩
+        ⟨d', hr, hma, hs, hab, hrep', hinfo', _⟩ | ⟨k, f', d', hr, hres, hs, hcore, hrep', hinfo', _, _, _⟩
       · simp only [execH, hr, HOp.toOp]
         refine ⟨⟨by rw [hs.failAt]; exact hfa, hs.wf hwf, by rw [hs.size]; exact hg.frame hs.geom, hrep', hinfo'⟩,
           hs.geom.clusterSize, ?_⟩
@@ -150,7 +206,7 @@ theorem execH_refines (op : HOp) (f : FileH) (d : Dev) (h : SimInv f d)
           have hk : k = (absFile d.fs d.img f).writeLen bs.length := Except.ok.inj hres'
           rw [hk, hcore.abs_eq hi.cs_pos hi.cover]; exact hchk
   | truncate =>
-    obtain ⟨f', d', hr, hs, _, hcore, hrep', hinfo'⟩ := truncate_sim f d hfa hg hrep hwf hinfo
+    obtain ⟨f', d', hr, hs, _, hcore, hrep', hinfo', _, _, _⟩ := truncate_sim f d hfa hg hrep hwf hinfo
     obtain ⟨_, hi, hab, _⟩ := hrep.inv.truncate_refines (fatAllocator_laws d.fs.totalClusters d.fs.fsInfo.next)
     simp only [execH, hr, HOp.toOp]
     refine ⟨⟨by rw [hs.failAt]; exact hfa, hs.wf hwf, by rw [hs.size]; exact hg.frame hs.geom, hrep', hinfo'⟩,
@@ -158,8 +214,197 @@ theorem execH_refines (op : HOp) (f : FileH) (d : Dev) (h : SimInv f d)
     simp only [Cursor.ByteFile.check]
     rw [hcore.abs_eq hi.cs_pos hi.cover, hab]
 
+/-! ### the loops `read_exact` / `write_all` over single calls -/
+
+theorem SimInv.abs_facts {f : FileH} {d : Dev} (h : SimInv f d) :
+    (absFile d.fs d.img f).abs.pos ≤ (absFile d.fs d.img f).abs.content.length ∧
+    (absFile d.fs d.img f).abs.content.length ≤ Cursor.u32Max ∧ 0 < d.fs.clusterSize ∧
+    (absFile d.fs d.img f).abs.pos = f.offset := by
+  have hi := h.rep.inv
+  refine ⟨?_, ?_, hi.cs_pos, rfl⟩
+  · simpa using hi.off_le
+  · simpa using hi.size_le
+
+/-- `read_exact` on the byte-level handle: with enough bytes left, exactly the next `need` bytes of the abstraction and
+    the cursor behind them; otherwise `UnexpectedEof` with the cursor at the end of the file -/
+theorem readxH_refines : ∀ (fuel : Nat) (h : FileH) (d : Dev) (need : Nat) (acc : List Nat), SimInv h d → need < fuel →
+    SimInv (readxH fuel h d need acc).2.1 (readxH fuel h d need acc).2.2 ∧
+    (readxH fuel h d need acc).2.2.fs.clusterSize = d.fs.clusterSize ∧
+    (need ≤ (absFile d.fs d.img h).abs.remaining →
+      (readxH fuel h d need acc).1 = .bytes (acc ++ ((absFile d.fs d.img h).abs.read need).1) ∧
+      (absFile (readxH fuel h d need acc).2.2.fs (readxH fuel h d need acc).2.2.img (readxH fuel h d need acc).2.1).abs =
+        ((absFile d.fs d.img h).abs.read need).2) ∧
+    ((absFile d.fs d.img h).abs.remaining < need →
+      (readxH fuel h d need acc).1 = .errAt .eof (absFile d.fs d.img h).abs.content.length ∧
+      (absFile (readxH fuel h d need acc).2.2.fs (readxH fuel h d need acc).2.2.img (readxH fuel h d need acc).2.1).abs =
+        { (absFile d.fs d.img h).abs with pos := (absFile d.fs d.img h).abs.content.length })
+  | 0, _, _, _, _, _, hf => by omega
+  | fuel + 1, h, d, need, acc, hinv, hf => by
+    obtain ⟨hpl, _, hcs0, _⟩ := hinv.abs_facts
+    by_cases hn : need = 0
+    · subst hn
+      simp only [readxH, if_true]
+      refine ⟨hinv, (by first | rfl | trivial), fun _ => ⟨by simp [Cursor.ByteFile.read],
+        by simp [Cursor.ByteFile.read, Cursor.AFile.abs]⟩, fun hlt => by omega⟩
+    · have hstep := execH_refines_prim (.read need) (by exact True.intro) h d hinv
+        (fun bs e => by rcases e with e | e <;> cases e)
+      rw [readxH]
+      simp only [hn, if_false]
+      simp only [execH, HOp.toOp] at hstep
+      generalize run (h.read need) d = r at hstep ⊢
+      obtain ⟨(e | ⟨bs, h'⟩), d'⟩ := r
+      · exact (Cursor.ByteFile.of_checkReadErr hstep.2.2).elim
+      · simp only at hstep ⊢
+        obtain ⟨hinv', hcs', hchk⟩ := hstep
+        simp only [Cursor.ByteFile.check] at hchk
+        obtain ⟨e1, e2, e3⟩ := Cursor.ByteFile.of_checkRead hchk
+        generalize (absFile d.fs d.img h).abs = b at *
+        have hmod := Nat.mod_lt b.pos hcs0
+        have hk : bs.length ≤ need ∧ bs.length ≤ b.remaining := by
+          rw [e1]; unfold Cursor.ByteFile.shortRead; omega
+        by_cases hl : bs.length = 0
+        · simp only [hl, if_true]
+          have hrem : b.remaining = 0 := by
+            rw [hl] at e1; unfold Cursor.ByteFile.shortRead at e1; omega
+          have hpe : b.pos = b.content.length := by unfold Cursor.ByteFile.remaining at hrem; omega
+          refine ⟨hinv', hcs', fun hle => by omega, fun _ => ⟨?_, ?_⟩⟩
+          · have : h'.offset = b.pos + bs.length := congrArg Cursor.ByteFile.pos e3
+            rw [this, hl, hpe, Nat.add_zero]
+          · rw [e3, hl, hpe, Nat.add_zero]
+        · simp only [hl, if_false]
+          obtain ⟨i1, i2, i3, i4⟩ := readxH_refines fuel h' d' (need - bs.length) (acc ++ bs) hinv' (by omega)
+          rw [e3] at i3 i4
+          obtain ⟨s1, s2⟩ := Cursor.ByteFile.read_split b need bs.length hk.1 hk.2
+          rw [← e2] at s1
+          refine ⟨i1, i2.trans hcs', fun hle => ?_, fun hlt => ?_⟩
+          · obtain ⟨j1, j2⟩ := i3 (by simp only [Cursor.ByteFile.remaining] at hle hk ⊢; omega)
+            refine ⟨?_, ?_⟩
+            · rw [j1, List.append_assoc, s1]
+            · rw [j2, s2 hle]
+          · obtain ⟨j1, j2⟩ := i4 (by simp only [Cursor.ByteFile.remaining] at hlt hk ⊢; omega)
+            exact ⟨j1, j2⟩
+
+/-- `write_all` on the byte-level handle: either the whole buffer is written at the cursor, or the loop stopped after
+    `k < |bs|` bytes — `NotEnoughSpace` on a cluster boundary at the end of the file, or `WriteZero` at `u32::MAX` -/
+theorem writeallH_refines : ∀ (fuel : Nat) (h : FileH) (d : Dev) (bs : List Nat), SimInv h d → (∀ x ∈ bs, x < 256) →
+    bs.length < fuel →
+    SimInv (writeallH fuel h d bs).2.1 (writeallH fuel h d bs).2.2 ∧
+    (writeallH fuel h d bs).2.2.fs.clusterSize = d.fs.clusterSize ∧
+    (((writeallH fuel h d bs).1 = .unit ∧
+      (absFile (writeallH fuel h d bs).2.2.fs (writeallH fuel h d bs).2.2.img (writeallH fuel h d bs).2.1).abs =
+        ((absFile d.fs d.img h).abs.write bs).2 ∧
+      (absFile d.fs d.img h).abs.pos + bs.length ≤ Cursor.u32Max) ∨
+     (∃ e k, (writeallH fuel h d bs).1 = .errAt e ((absFile d.fs d.img h).abs.pos + k) ∧ k < bs.length ∧
+      (absFile (writeallH fuel h d bs).2.2.fs (writeallH fuel h d bs).2.2.img (writeallH fuel h d bs).2.1).abs =
+        ((absFile d.fs d.img h).abs.write (bs.take k)).2 ∧
+      ((e = .noSpace ∧ ((absFile d.fs d.img h).abs.pos + k) % d.fs.clusterSize = 0 ∧
+          (absFile d.fs d.img h).abs.content.length ≤ (absFile d.fs d.img h).abs.pos + k) ∨
+       (e = .writeZero ∧ (absFile d.fs d.img h).abs.pos + k = Cursor.u32Max))))
+  | 0, _, _, _, _, _, hf => by omega
+  | fuel + 1, h, d, bs, hinv, hbytes, hf => by
+    obtain ⟨hpl, hlu, hcs0, hpo⟩ := hinv.abs_facts
+    by_cases hn : bs.length = 0
+    · have hn' : bs = [] := List.eq_nil_of_length_eq_zero hn
+      subst hn'
+      simp only [writeallH, List.length_nil, if_true]
+      exact ⟨hinv, (by first | rfl | trivial), Or.inl ⟨(by first | rfl | trivial),
+        by rw [Cursor.ByteFile.write_nil], by simp only [Nat.add_zero]; omega⟩⟩
+    · have hstep := execH_refines_prim (.write bs) (by exact True.intro) h d hinv
+        (fun bs' e => by rcases e with e | e <;> cases e; exact hbytes)
+      rw [writeallH]
+      simp only [hn, if_false]
+      simp only [execH, HOp.toOp] at hstep
+      generalize run (h.write bs) d = r at hstep ⊢
+      obtain ⟨(e | ⟨k, h'⟩), d'⟩ := r
+      · simp only at hstep ⊢
+        obtain ⟨hinv', hcs', hchk⟩ := hstep
+        obtain ⟨c1, c2, c3, _, c5⟩ := Cursor.ByteFile.of_checkWriteErr hchk
+        refine ⟨hinv', hcs', Or.inr ⟨e, 0, by rw [hpo, Nat.add_zero], by omega, ?_, Or.inl ⟨c1, ?_, ?_⟩⟩⟩
+        · rw [c5, List.take_zero, Cursor.ByteFile.write_nil]
+        · simpa using c2
+        · omega
+      · simp only at hstep ⊢
+        obtain ⟨hinv', hcs', hchk⟩ := hstep
+        obtain ⟨c1, c2⟩ := Cursor.ByteFile.of_checkWrite hchk
+        generalize (absFile d.fs d.img h).abs = b at *
+        have hmod := Nat.mod_lt b.pos hcs0
+        have hkl : k ≤ bs.length := by rw [c1]; unfold Cursor.ByteFile.shortWrite; omega
+        have htl : (bs.take k).length = k := by rw [List.length_take]; omega
+        have hp' : (b.write (bs.take k)).2.pos = b.pos + k := by simp [Cursor.ByteFile.write, htl]
+        have hl' : (b.write (bs.take k)).2.content.length = max b.content.length (b.pos + k) := by
+          rw [Cursor.ByteFile.write_content_length _ _ hpl, htl]
+        by_cases hk0 : k = 0
+        · simp only [hk0, if_true]
+          have hpu : b.pos = Cursor.u32Max := by
+            rw [hk0] at c1; unfold Cursor.ByteFile.shortWrite at c1; omega
+          refine ⟨hinv', hcs', Or.inr ⟨.writeZero, 0, ?_, by omega, ?_, Or.inr ⟨rfl, by omega⟩⟩⟩
+          · have : h'.offset = (b.write (bs.take k)).2.pos := congrArg Cursor.ByteFile.pos c2
+            rw [this, hp', hk0]
+          · rw [c2, hk0]
+        · simp only [hk0, if_false]
+          obtain ⟨i1, i2, i3⟩ := writeallH_refines fuel h' d' (bs.drop k) hinv'
+            (fun x hx => hbytes x (List.mem_of_mem_drop hx)) (by rw [List.length_drop]; omega)
+          rw [c2] at i3
+          refine ⟨i1, i2.trans hcs', ?_⟩
+          rcases i3 with ⟨j1, j2, j3⟩ | ⟨e, k2, j1, j2, j3, j4⟩
+          · left
+            refine ⟨j1, ?_, ?_⟩
+            · rw [j2, Cursor.ByteFile.write_write _ _ _ hpl, List.take_append_drop]
+            · rw [hp', List.length_drop] at j3; omega
+          · right
+            rw [hp'] at j1 j4
+            rw [List.length_drop] at j2
+            refine ⟨e, k + k2, by rw [j1, Nat.add_assoc], by omega, ?_, ?_⟩
+            · rw [j3, Cursor.ByteFile.write_write _ _ _ hpl, List.take_add]
+            · rw [hl', hcs'] at j4
+              rcases j4 with ⟨a1, a2, a3⟩ | ⟨a1, a2⟩
+              · exact Or.inl ⟨a1, by rw [← Nat.add_assoc]; exact a2, by omega⟩
+              · exact Or.inr ⟨a1, by omega⟩
+
+/-- one step of a history (a single call or a loop): the invariants are kept, the cluster size stays, and the
+    observable result is accepted by the `ByteFile` oracle, which moves from the abstraction of the old state to that of
+    the new one -/
+theorem execH_refines (op : HOp) (f : FileH) (d : Dev) (h : SimInv f d) (hok : op.BytesOk) :
+    SimInv (execH op f d).2.1 (execH op f d).2.2 ∧
+    (execH op f d).2.2.fs.clusterSize = d.fs.clusterSize ∧
+    Cursor.ByteFile.check d.fs.clusterSize op.toOp (execH op f d).1 (absFile d.fs d.img f).abs =
+      .ok (absFile (execH op f d).2.2.fs (execH op f d).2.2.img (execH op f d).2.1).abs := by
+  cases op with
+  | read n => exact execH_refines_prim _ (by exact True.intro) f d h hok
+  | seek p => exact execH_refines_prim _ (by exact True.intro) f d h hok
+  | write bs => exact execH_refines_prim _ (by exact True.intro) f d h hok
+  | truncate => exact execH_refines_prim _ (by exact True.intro) f d h hok
+  | readExact n =>
+    obtain ⟨i1, i2, i3, i4⟩ := readxH_refines (n + 1) f d n [] h (by omega)
+    refine ⟨i1, i2, ?_⟩
+    show Cursor.ByteFile.check d.fs.clusterSize (.readExact n) (readxH (n + 1) f d n []).1 _ =
+      .ok (absFile (readxH (n + 1) f d n []).2.2.fs (readxH (n + 1) f d n []).2.2.img (readxH (n + 1) f d n []).2.1).abs
+    by_cases hle : n ≤ (absFile d.fs d.img f).abs.remaining
+    · obtain ⟨j1, j2⟩ := i3 hle
+      rw [j1, j2, List.nil_append]
+      exact Cursor.ByteFile.checkReadExact_ok n _ hle
+    · obtain ⟨j1, j2⟩ := i4 (by omega)
+      rw [j1, j2]
+      simp only [Cursor.ByteFile.check]
+      rw [if_pos ⟨by omega, (by first | rfl | trivial)⟩]
+  | writeAll bs =>
+    obtain ⟨i1, i2, i3⟩ := writeallH_refines (bs.length + 1) f d bs h (hok bs (Or.inr rfl)) (by omega)
+    refine ⟨i1, i2, ?_⟩
+    show Cursor.ByteFile.check d.fs.clusterSize (.writeAll bs) (writeallH (bs.length + 1) f d bs).1 _ =
+      .ok (absFile (writeallH (bs.length + 1) f d bs).2.2.fs (writeallH (bs.length + 1) f d bs).2.2.img
+        (writeallH (bs.length + 1) f d bs).2.1).abs
+    rcases i3 with ⟨j1, j2, j3⟩ | ⟨e, k, j1, j2, j3, j4⟩
+    · rw [j1, j2]
+      simp only [Cursor.ByteFile.check]
+      rw [if_pos j3]
+    · rw [j1, j3]
+      simp only [Cursor.ByteFile.check, Cursor.ByteFile.checkWriteAllErr]
+      have hk : (absFile d.fs d.img f).abs.pos + k - (absFile d.fs d.img f).abs.pos = k := by omega
+      rw [if_pos ⟨by omega, by omega, j4⟩, hk]
+
 /-- **`fileh_refines_bytefile`.**  For every finite sequence of `read` / `seek` (all three forms) / `write` /
-    `truncate` on one handle of the byte-level model `FileH` (programs of Model/File.lean run on a device image), started
+    `truncate` / `read_exact` / `write_all` (the io.rs loops over single calls, as the history driver runs them) on one
+    handle of the byte-level model `FileH` (programs of Model/File.lean run on a device image), started
     in a state satisfying the invariants (no scheduled device fault, well-formed image pages, layout `Geo`,
     representation invariant `FileRep`, FS-info bookkeeping `InfoOk`) and with write buffers made of bytes: the
     observable results — the bytes of every read, the position or the `InvalidInput` of every seek, the count or the
@@ -170,8 +415,9 @@ theorem execH_refines (op : HOp) (f : FileH) (d : Dev) (h : SimInv f d)
     the new cluster, updates the FS-info hint and count; truncation frees the tail of the chain in the FAT.
 
     Restrictions that remain: one handle; fault-free device; the handle's 32-byte directory record is not flushed
-    (no `flush`/drop in the alphabet — C14 covers it); the loops `read_exact`/`write_all` are not in the alphabet
-    (`Props/C02.lean` composes them on the machine). -/
+    (no `flush`/drop in the alphabet — C14 covers it).  For the loops the oracle is `ByteFile.check` on `.readExact` /
+    `.writeAll`: all `n` bytes or `UnexpectedEof` with the cursor at the end; the whole buffer or the error
+    (`NotEnoughSpace` / `WriteZero`) with the prefix written up to the reported cursor. -/
 theorem fileh_refines_bytefile : ∀ (ops : List HOp) (f : FileH) (d : Dev), SimInv f d → BytesOk ops →
     SimInv (runH ops f d).2.1 (runH ops f d).2.2 ∧
     (runH ops f d).2.2.fs.clusterSize = d.fs.clusterSize ∧
@@ -179,12 +425,7 @@ theorem fileh_refines_bytefile : ∀ (ops : List HOp) (f : FileH) (d : Dev), Sim
       .ok (absFile (runH ops f d).2.2.fs (runH ops f d).2.2.img (runH ops f d).2.1).abs
   | [], f, d, h, _ => ⟨h, rfl, rfl⟩
   | op :: ops, f, d, h, hok => by
-    have hop : (∀ bs, op = .write bs → ∀ b ∈ bs, b < 256) ∧ BytesOk ops := by
-      cases op with
-      | write bs => exact ⟨fun bs' e => by cases e; exact hok.1, hok.2⟩
-      | read n => exact ⟨fun bs' e => (by cases e), hok⟩
-      | seek p => exact ⟨fun bs' e => (by cases e), hok⟩
-      | truncate => exact ⟨fun bs' e => (by cases e), hok⟩
+    have hop := hok.cons
     obtain ⟨hi, hcs, hchk⟩ := execH_refines op f d h hop.1
     obtain ⟨ri, rcs, rchk⟩ := fileh_refines_bytefile ops _ _ hi hop.2
     simp only [runH, List.map]
